@@ -71,7 +71,7 @@ def configs(tier, seed):
     for k, ((pa, va, ma), (pb, vb, mb)) in enumerate(pairs):
         base = dict(pa=pa, va=[str(F(v)) for v in va], ma=ma, pb=pb, vb=[str(F(v)) for v in vb], mb=mb)
         na, nb = sum(ma) - pa - 1, sum(mb) - pb - 1
-        dim = 2 if (k + seed) % 3 == 0 and na + nb <= 5 else 0
+        dim = 2 if (k + seed) % 3 == 0 and na + nb <= 4 else 0
         cfgs.append(dict(name=f"pair{k} A==B dim={dim}", kind="pair", dim=dim, **base))
         cfgs.append(dict(name=f"pair{k} refined copies", kind="copies", dim=0, **base))
     for k in range(3):
